@@ -1,1 +1,469 @@
-//! Reference models for the distinfo monitors.
+//! Reference models for the distinfo properties C10, C11 and C12.
+//!
+//! Everything in here is written from the property statements and is
+//! independent of `pkgsrc::distinfo` / `pkgsrc::digest`:
+//!
+//! * the document model (files in first-appearance order per kind, checksums
+//!   in line order, size) and its canonical rendering (C10, C11);
+//! * the patch / distfile classification rule with all the readings the
+//!   statement admits - a name on which two readings differ is *ambiguous* and
+//!   is never generated for comparison (DESIGN section 4);
+//! * digests computed with the RustCrypto crates called directly, and the
+//!   harness's own `$NetBSD` line filter (C12);
+//! * "shortest recorded trailing sub-path" resolution (C12).
+//!
+//! `compare_structure` observes a parsed `Distinfo` through its public
+//! accessors and compares it with a model; it must be called inside a
+//! `cx.check` body.
+
+use pkgsrc::digest::Digest as LibDigest;
+use pkgsrc::distinfo::{Distinfo, Entry, EntryType};
+use std::ffi::OsStr;
+use std::os::unix::ffi::OsStrExt;
+
+#[derive(Clone, Copy, Debug, PartialEq, Eq, Hash)]
+pub enum Alg {
+    Blake2s,
+    Md5,
+    Rmd160,
+    Sha1,
+    Sha256,
+    Sha512,
+}
+
+pub const ALGS: [Alg; 6] =
+    [Alg::Blake2s, Alg::Md5, Alg::Rmd160, Alg::Sha1, Alg::Sha256, Alg::Sha512];
+
+impl Alg {
+    /// Spelling of the keyword in a distinfo file.
+    pub fn keyword(self) -> &'static str {
+        match self {
+            Alg::Blake2s => "BLAKE2s",
+            Alg::Md5 => "MD5",
+            Alg::Rmd160 => "RMD160",
+            Alg::Sha1 => "SHA1",
+            Alg::Sha256 => "SHA256",
+            Alg::Sha512 => "SHA512",
+        }
+    }
+    /// Number of hex digits of the digest.
+    pub fn hexlen(self) -> usize {
+        match self {
+            Alg::Blake2s => 64,
+            Alg::Md5 => 32,
+            Alg::Rmd160 => 40,
+            Alg::Sha1 => 40,
+            Alg::Sha256 => 64,
+            Alg::Sha512 => 128,
+        }
+    }
+    /// The library's name for the same algorithm (public enum variant).
+    pub fn lib(self) -> LibDigest {
+        match self {
+            Alg::Blake2s => LibDigest::BLAKE2s,
+            Alg::Md5 => LibDigest::MD5,
+            Alg::Rmd160 => LibDigest::RMD160,
+            Alg::Sha1 => LibDigest::SHA1,
+            Alg::Sha256 => LibDigest::SHA256,
+            Alg::Sha512 => LibDigest::SHA512,
+        }
+    }
+    pub fn from_lib(d: LibDigest) -> Alg {
+        match d {
+            LibDigest::BLAKE2s => Alg::Blake2s,
+            LibDigest::MD5 => Alg::Md5,
+            LibDigest::RMD160 => Alg::Rmd160,
+            LibDigest::SHA1 => Alg::Sha1,
+            LibDigest::SHA256 => Alg::Sha256,
+            LibDigest::SHA512 => Alg::Sha512,
+        }
+    }
+    /// Is `word` one of the keywords a distinfo line may start with, in any
+    /// letter case?  (Case variants are an excluded zone: generators use this
+    /// to keep "garbage" first fields away from them.)
+    pub fn is_keyword_any_case(word: &[u8]) -> bool {
+        let Ok(s) = std::str::from_utf8(word) else { return false };
+        let l = s.to_lowercase();
+        l == "size" || ALGS.iter().any(|a| a.keyword().to_lowercase() == l)
+    }
+}
+
+#[derive(Clone, Copy, Debug, PartialEq, Eq, Hash)]
+pub enum Kind {
+    Dist,
+    Patch,
+}
+
+impl Kind {
+    pub fn name(self) -> &'static str {
+        match self {
+            Kind::Dist => "distfile",
+            Kind::Patch => "patch",
+        }
+    }
+}
+
+// ---------------------------------------------------------------------------
+// Classification: "patch files (patch-* and emul-*-patch-*, except
+// patch-local-*, *.orig, *.rej, *~ and names containing .tar.)"
+// ---------------------------------------------------------------------------
+
+fn find(h: &[u8], n: &[u8], from: usize) -> Option<usize> {
+    if n.is_empty() || h.len() < n.len() {
+        return None;
+    }
+    (from..=h.len() - n.len()).find(|&i| &h[i..i + n.len()] == n)
+}
+
+pub fn contains(h: &[u8], n: &[u8]) -> bool {
+    find(h, n, 0).is_some()
+}
+
+/// One reading of the rule.  `glob_emul`: `emul-*-patch-*` read as a glob (the
+/// `-patch-` must start after the `emul-` prefix) instead of "starts with
+/// emul- and contains -patch-".  `tar_needle`: `.tar.` or, if the final dot is
+/// read as punctuation, `.tar`.
+fn rule(s: &[u8], glob_emul: bool, tar_needle: &[u8]) -> Kind {
+    if s.starts_with(b"patch-local-")
+        || s.ends_with(b".orig")
+        || s.ends_with(b".rej")
+        || s.ends_with(b"~")
+        || contains(s, tar_needle)
+    {
+        return Kind::Dist;
+    }
+    if s.starts_with(b"patch-") {
+        return Kind::Patch;
+    }
+    if s.starts_with(b"emul-") {
+        let from = if glob_emul { 5 } else { 0 };
+        if find(s, b"-patch-", from).is_some() {
+            return Kind::Patch;
+        }
+    }
+    Kind::Dist
+}
+
+pub fn last_component(name: &[u8]) -> &[u8] {
+    match name.iter().rposition(|&b| b == b'/') {
+        Some(i) => &name[i + 1..],
+        None => name,
+    }
+}
+
+/// The kind of a name if every reading of the statement agrees (whole name
+/// vs last path component, glob vs substring for `emul-*-patch-*`, `.tar.` vs
+/// `.tar`), otherwise `None` (the name is in an excluded zone).
+pub fn classify(name: &[u8]) -> Option<Kind> {
+    let mut seen: Option<Kind> = None;
+    for subject in [name, last_component(name)] {
+        for glob in [false, true] {
+            for needle in [&b".tar."[..], &b".tar"[..]] {
+                let k = rule(subject, glob, needle);
+                match seen {
+                    None => seen = Some(k),
+                    Some(p) if p != k => return None,
+                    _ => {}
+                }
+            }
+        }
+    }
+    seen
+}
+
+/// Is the name free of everything on which `PathBuf` normalisation could
+/// matter?  Non-empty components separated by single slashes, no `.` / `..`
+/// component, no leading or trailing slash.  For such names `Path` equality
+/// coincides with byte equality (known finding K2 needs the opposite).
+pub fn path_plain(name: &[u8]) -> bool {
+    !name.is_empty()
+        && name.split(|&b| b == b'/').all(|c| !c.is_empty() && c != b"." && c != b"..")
+}
+
+// ---------------------------------------------------------------------------
+// Document model
+// ---------------------------------------------------------------------------
+
+#[derive(Clone, Debug, PartialEq, Eq)]
+pub struct FileModel {
+    pub name: Vec<u8>,
+    pub kind: Kind,
+    pub sums: Vec<(Alg, String)>,
+    pub size: Option<u64>,
+}
+
+#[derive(Clone, Debug, Default, PartialEq, Eq)]
+pub struct DocModel {
+    pub rcsid: Option<Vec<u8>>,
+    pub dist: Vec<FileModel>,
+    pub patch: Vec<FileModel>,
+}
+
+pub enum Rec<'a> {
+    Sum(Alg, &'a str),
+    Size(u64),
+}
+
+impl DocModel {
+    fn slot(&mut self, name: &[u8], kind: Kind) -> &mut FileModel {
+        let v = match kind {
+            Kind::Dist => &mut self.dist,
+            Kind::Patch => &mut self.patch,
+        };
+        if let Some(i) = v.iter().position(|f| f.name == name) {
+            return &mut v[i];
+        }
+        v.push(FileModel { name: name.to_vec(), kind, sums: vec![], size: None });
+        v.last_mut().unwrap()
+    }
+    /// The effect of one well-formed line: names in first-appearance order per
+    /// kind, checksums in line order, the size under exactly that name.
+    pub fn apply(&mut self, name: &[u8], kind: Kind, rec: Rec) {
+        let f = self.slot(name, kind);
+        match rec {
+            Rec::Sum(a, h) => f.sums.push((a, h.to_string())),
+            Rec::Size(n) => f.size = Some(n),
+        }
+    }
+    pub fn files(&self) -> impl Iterator<Item = &FileModel> {
+        self.dist.iter().chain(self.patch.iter())
+    }
+}
+
+pub fn sum_line(alg: Alg, name: &[u8], hash: &str) -> Vec<u8> {
+    let mut l = Vec::with_capacity(name.len() + hash.len() + 16);
+    l.extend_from_slice(alg.keyword().as_bytes());
+    l.extend_from_slice(b" (");
+    l.extend_from_slice(name);
+    l.extend_from_slice(b") = ");
+    l.extend_from_slice(hash.as_bytes());
+    l.push(b'\n');
+    l
+}
+
+pub fn size_line(name: &[u8], size: u64) -> Vec<u8> {
+    let mut l = Vec::with_capacity(name.len() + 40);
+    l.extend_from_slice(b"Size (");
+    l.extend_from_slice(name);
+    l.extend_from_slice(b") = ");
+    l.extend_from_slice(size.to_string().as_bytes());
+    l.extend_from_slice(b" bytes\n");
+    l
+}
+
+/// The lines of one file in canonical layout: checksum lines, then the size
+/// line if `with_size`.
+pub fn render_file(f: &FileModel, with_size: bool) -> Vec<u8> {
+    let mut t = vec![];
+    for (a, h) in &f.sums {
+        t.extend_from_slice(&sum_line(*a, &f.name, h));
+    }
+    if with_size {
+        if let Some(n) = f.size {
+            t.extend_from_slice(&size_line(&f.name, n));
+        }
+    }
+    t
+}
+
+/// Canonical layout: RCS Id line, blank line, then for each distfile its
+/// checksum lines and size line, then for each patch its checksum lines.
+pub fn render_canonical(m: &DocModel) -> Vec<u8> {
+    let mut t = vec![];
+    match &m.rcsid {
+        Some(r) => t.extend_from_slice(r),
+        None => t.extend_from_slice(b"$NetBSD$"),
+    }
+    t.extend_from_slice(b"\n\n");
+    for f in &m.dist {
+        t.extend_from_slice(&render_file(f, true));
+    }
+    for f in &m.patch {
+        t.extend_from_slice(&render_file(f, false));
+    }
+    t
+}
+
+fn show(b: &[u8]) -> String {
+    crate::fw::show(b)
+}
+
+fn entry_name(e: &Entry) -> &[u8] {
+    e.filename.as_os_str().as_bytes()
+}
+
+fn compare_entry(e: &Entry, m: &FileModel) -> Result<(), String> {
+    let n = show(&m.name);
+    if entry_name(e) != &m.name[..] {
+        return Err(format!("entry filename {:?}, expected {:?}", show(entry_name(e)), n));
+    }
+    let want_type = match m.kind {
+        Kind::Dist => EntryType::Distfile,
+        Kind::Patch => EntryType::Patchfile,
+    };
+    if e.filetype != want_type {
+        return Err(format!("entry {n:?} has filetype {:?}, expected {}", e.filetype, m.kind.name()));
+    }
+    if e.size != m.size {
+        return Err(format!("entry {n:?} has size {:?}, expected {:?}", e.size, m.size));
+    }
+    let got: Vec<(Alg, &str)> =
+        e.checksums.iter().map(|c| (Alg::from_lib(c.digest), c.hash.as_str())).collect();
+    let want: Vec<(Alg, &str)> = m.sums.iter().map(|(a, h)| (*a, h.as_str())).collect();
+    if got != want {
+        return Err(format!("entry {n:?} has checksums {got:?}, expected {want:?}"));
+    }
+    Ok(())
+}
+
+fn compare_list(what: &str, got: &[&Entry], want: &[FileModel]) -> Result<(), String> {
+    let gn: Vec<String> = got.iter().map(|e| show(entry_name(e))).collect();
+    let wn: Vec<String> = want.iter().map(|f| show(&f.name)).collect();
+    if gn != wn {
+        return Err(format!("{what} are {gn:?}, expected {wn:?} (first-appearance order)"));
+    }
+    for (e, m) in got.iter().zip(want) {
+        compare_entry(e, m).map_err(|s| format!("{what}: {s}"))?;
+    }
+    Ok(())
+}
+
+/// Observe `di` through `distfiles()`, `patchfiles()` and (if `lookups`)
+/// `get_distfile`/`get_patchfile`, and compare with the model.  Returns the
+/// number of comparisons made.
+pub fn compare_structure(di: &Distinfo, m: &DocModel, lookups: bool) -> Result<u64, String> {
+    let d = di.distfiles();
+    let p = di.patchfiles();
+    compare_list("distfiles", &d, &m.dist)?;
+    compare_list("patchfiles", &p, &m.patch)?;
+    let mut n = 2 + (m.dist.len() + m.patch.len()) as u64;
+    if lookups {
+        for f in m.files() {
+            let key = OsStr::from_bytes(&f.name);
+            let (same, other) = match f.kind {
+                Kind::Dist => (di.get_distfile(key), di.get_patchfile(key)),
+                Kind::Patch => (di.get_patchfile(key), di.get_distfile(key)),
+            };
+            n += 2;
+            match same {
+                None => {
+                    return Err(format!(
+                        "lookup of {} {:?} by name finds nothing",
+                        f.kind.name(),
+                        show(&f.name)
+                    ))
+                }
+                Some(e) => compare_entry(e, f).map_err(|s| format!("lookup by name: {s}"))?,
+            }
+            if let Some(e) = other {
+                return Err(format!(
+                    "{} {:?} is also found among the other kind (as {:?})",
+                    f.kind.name(),
+                    show(&f.name),
+                    show(entry_name(e))
+                ));
+            }
+        }
+    }
+    Ok(n)
+}
+
+pub fn compare_rcsid(di: &Distinfo, want: &Option<Vec<u8>>) -> Result<(), String> {
+    let got = di.rcsid().map(|s| s.as_bytes().to_vec());
+    if &got != want {
+        return Err(format!(
+            "rcsid is {:?}, expected {:?}",
+            got.as_deref().map(show),
+            want.as_deref().map(show)
+        ));
+    }
+    Ok(())
+}
+
+// ---------------------------------------------------------------------------
+// C12: digests (RustCrypto called directly), $NetBSD filter, tail resolution
+// ---------------------------------------------------------------------------
+
+fn hex(b: &[u8]) -> String {
+    crate::fw::hex(b)
+}
+
+pub fn digest_hex(alg: Alg, data: &[u8]) -> String {
+    use digest::Digest as _;
+    match alg {
+        Alg::Blake2s => hex(&blake2::Blake2s256::digest(data)),
+        Alg::Md5 => hex(&md5::Md5::digest(data)),
+        Alg::Rmd160 => hex(&ripemd::Ripemd160::digest(data)),
+        Alg::Sha1 => hex(&sha1::Sha1::digest(data)),
+        Alg::Sha256 => hex(&sha2::Sha256::digest(data)),
+        Alg::Sha512 => hex(&sha2::Sha512::digest(data)),
+    }
+}
+
+const TOKEN: &[u8] = b"$NetBSD";
+
+/// The harness's own `$NetBSD` filter: split on LF, drop the final empty
+/// piece, drop lines containing `$NetBSD`, re-terminate every kept line.
+pub fn netbsd_filter(data: &[u8]) -> Vec<u8> {
+    let mut pieces: Vec<&[u8]> = data.split(|&b| b == b'\n').collect();
+    if pieces.last().map(|p| p.is_empty()).unwrap_or(false) {
+        pieces.pop();
+    }
+    let mut out = Vec::with_capacity(data.len() + 1);
+    for p in pieces {
+        if contains(p, TOKEN) {
+            continue;
+        }
+        out.extend_from_slice(p);
+        out.push(b'\n');
+    }
+    out
+}
+
+/// "The file with every line containing `$NetBSD` removed" is unambiguous
+/// only when no kept line lacks its terminator: empty content, content that
+/// ends with LF, or content whose unterminated last line is itself removed.
+/// (Whether an unterminated kept last line gains an LF differs between sed
+/// implementations; that zone is not compared.)
+pub fn patch_sound(data: &[u8]) -> bool {
+    if data.is_empty() || data.ends_with(b"\n") {
+        return true;
+    }
+    let last = match data.iter().rposition(|&b| b == b'\n') {
+        Some(i) => &data[i + 1..],
+        None => data,
+    };
+    contains(last, TOKEN)
+}
+
+/// What is hashed for a file of the given kind.
+pub fn hashed_bytes(kind: Kind, data: &[u8]) -> Vec<u8> {
+    match kind {
+        Kind::Dist => data.to_vec(),
+        Kind::Patch => netbsd_filter(data),
+    }
+}
+
+pub fn file_digest(alg: Alg, kind: Kind, data: &[u8]) -> String {
+    digest_hex(alg, &hashed_bytes(kind, data))
+}
+
+/// Index of the recorded name (among `names`) that is the shortest trailing
+/// sub-path of `full` (whole components only).
+pub fn resolve_tail(names: &[&[u8]], full: &[u8]) -> Option<usize> {
+    let mut best: Option<(usize, usize)> = None;
+    for (i, n) in names.iter().enumerate() {
+        let is_tail = full == *n
+            || (full.len() > n.len()
+                && full.ends_with(n)
+                && full[full.len() - n.len() - 1] == b'/');
+        if !is_tail {
+            continue;
+        }
+        let comps = n.split(|&b| b == b'/').count();
+        if best.map(|(c, _)| comps < c).unwrap_or(true) {
+            best = Some((comps, i));
+        }
+    }
+    best.map(|(_, i)| i)
+}
